@@ -31,8 +31,9 @@ RULE = ('one case = initial tree of a sandbox (install directory fresh or popula
         'files, a directory and a link pointing back, outside) + an archive (1..8 members of kinds regular / directory / '
         'symlink / hardlink / fifo; names and link targets relative, ..-laden or absolute; any order; gzip or plain) '
         'built with tarfile and extracted by the real untar_file. Streams: benign trees, benign + one hostile member, '
-        'link-then-file-through-link, hardlink-then-overwrite, link duplication, back-link replacement, kind '
-        'replacement, fully random. Non-trivial = at least one member was extracted or refused for a reason other than '
+        'link-then-file-through-link, hardlink-then-overwrite, links staying inside, link duplication, back-link replacement, kind '
+        'replacement, fully random; thorough adds every archive of one or two members over a small alphabet (5 names x '
+        '4 targets x 4 kinds: 50 + 2500 archives). Non-trivial = at least one member was extracted or refused for a reason other than '
         'its mere kind; distinct = distinct (initial tree, member list, compression).')
 TRUSTED = ['CPython 3.12 tarfile (data_filter, extract, makelink fallbacks) and posixpath.realpath, and the POSIX '
            'semantics of mkdir/open/symlink/unlink/link/lstat: modelled in coq/Model/MUntar.v, validated only by this '
@@ -207,8 +208,24 @@ def _random_member(rng):
     return _hard(nm, _target(rng))
 
 
+def _inside_links(rng):
+    """links that stay inside: written through (last component), replaced, aliased by hard links, in sub-directories"""
+    ms = [_reg(rng, 'f.txt')]
+    if rng.random() < 0.5:
+        ms.append(_reg(rng, 'a/g.txt'))
+    for _ in range(rng.randint(1, 4)):
+        ms.append(rng.choice([
+            _sym('l', rng.choice(['f.txt', 'a/g.txt', 'a', 'missing.txt', 'k'])), _sym('a/l', rng.choice(['../f.txt', 'g.txt', '.'])),
+            _sym('k', rng.choice(['l', 'f.txt'])), _hard('h', rng.choice(['f.txt', 'a/g.txt', 'l', 'a/l'])),
+            _hard('a/h', rng.choice(['f.txt', 'a/g.txt', 'h'])), _reg(rng, rng.choice(['l', 'h', 'a/h', 'k', 'a/l', 'f.txt'])),
+            _dir(rng, rng.choice(['a', 'l', 'b']))]))
+    return ms
+
+
 def _scenario(rng):
-    r = rng.randrange(20)
+    r = rng.randrange(23)
+    if r >= 20:
+        return 'inside-links', _inside_links(rng)
     if r < 6:
         return 'benign', _benign(rng, rng.randint(1, 8))
     if r < 9:
@@ -255,9 +272,33 @@ def _scenario(rng):
     return 'random', ms
 
 
+def _small_scope():
+    """every archive of one or two members over a small alphabet of kinds, names and link targets (thorough tier)"""
+    names = ['f.txt', 'a/f.txt', '../f.txt', 'l', 'l/x.txt']
+    targets = ['f.txt', '../outdir', '.', '$P/outdir']
+    singles = []
+    for n in names:
+        singles.append({'k': 'reg', 'name': n, 'data': 'x', 'mode': 0o644})
+        singles.append({'k': 'dir', 'name': n})
+        for t in targets:
+            singles.append(_sym(n, t))
+            singles.append(_hard(n, t))
+    for m in singles:
+        yield [m]
+    for m1 in singles:
+        for m2 in singles:
+            yield [m1, dict(m2, data='y') if m2['k'] == 'reg' else m2]
+
+
 def gen_cases(rng, tier):
-    n = 520 if tier == 'quick' else 5200
+    n = 320 if tier == 'quick' else 2000
     cases = []
+    # absolute member names: a fixed, small number (see _abs_member)
+    for _ in range(3 if tier == 'quick' else 12):
+        ms = [_abs_member(rng)]
+        if rng.random() < 0.5:
+            ms.insert(rng.randint(0, 1), _reg(rng, 'f.txt'))
+        cases.append({'pre': rng.choice(['fresh', 'populated']), 'members': ms, 'gz': rng.random() < 0.5, 'stream': 'absolute'})
     while len(cases) < n:
         kind, ms = _scenario(rng)
         if kind not in ('benign',) and rng.random() < 0.3:
@@ -268,6 +309,9 @@ def gen_cases(rng, tier):
         if not _members_safe(ms):
             continue
         cases.append({'pre': pre, 'members': ms, 'gz': rng.random() < 0.5, 'stream': kind})
+    if tier == 'thorough':
+        for ms in _small_scope():
+            cases.append({'pre': 'fresh', 'members': ms, 'gz': False, 'stream': 'small-scope'})
     return cases
 
 
@@ -349,8 +393,11 @@ def run_impl(case, ctx):
         raise ValueError('case violates the sandbox safety bound of the harness')
     top = os.path.realpath(os.path.join(ctx['tmp'], 'sb'))
     assert top.startswith(os.path.realpath(ctx['tmp']))
-    shutil.rmtree(top, ignore_errors=True)
     P = os.path.join(top, *_chain())
+    # the chain of DEPTH directories above P is kept from one case to the next (it is verified after each case
+    # and rebuilt if anything touched it); P itself is rebuilt for every case
+    if os.path.lexists(P):
+        shutil.rmtree(P)
     os.makedirs(P)
     install = os.path.join(P, 'install')
     old_umask = os.umask(0o022)
@@ -379,7 +426,7 @@ def run_impl(case, ctx):
         after = _snapshot(top)
     finally:
         os.umask(old_umask)
-        shutil.rmtree(top, ignore_errors=True)
+        shutil.rmtree(P, ignore_errors=True)
         try:
             os.unlink(archive)
         except (OSError, UnboundLocalError):
@@ -398,6 +445,8 @@ def run_impl(case, ctx):
                      if strip_ino(out_before).get(k) != strip_ino(out_after).get(k))
     chain_ok = all((k.startswith(prel + os.sep) or (prel == k or prel.startswith(k + os.sep)) and v == ['dir'])
                    for k, v in after.items())
+    if not chain_ok:
+        shutil.rmtree(top, ignore_errors=True)
 
     def under_p(snap):
         return {os.path.relpath(k, prel): v for k, v in snap.items() if k.startswith(prel + os.sep)}
